@@ -54,6 +54,17 @@ type instance struct {
 	// returns its key (mode "updates")
 	Key    string
 	Marker func(i int, g *mt.Gen) string
+	// Hold (set by wire; else Write): the write that is begun and HELD between storing its value and publishing
+	// its change while streams open — a random stored change, or, for a service that streams one value, the
+	// creation of an item
+	Hold func(g *mt.Gen)
+}
+
+func (inst *instance) hold() func(g *mt.Gen) {
+	if inst.Hold != nil {
+		return inst.Hold
+	}
+	return inst.Write
 }
 
 // creader is one trait-level reader; Funcs names the source functions it drives (package.Func), used to
@@ -432,7 +443,7 @@ type ccase struct {
 	SetupSeed int64   `json:"setup_seed"`
 	Mask      mt.Mask `json:"read_mask"`
 	Writes    int     `json:"writes,omitempty"`
-	Pending   bool    `json:"first_write_pending,omitempty"` // modes updates and pull: the first write has stored but not published when the streams open
+	Pending   bool    `json:"first_write_pending,omitempty"` // modes updates, pull and seeds: a write has stored but not published when the streams open
 	Unmasked  string  `json:"unmasked,omitempty"` // what the unmasked read returned (information for the reader of a replay)
 }
 
@@ -486,6 +497,20 @@ func (c ccase) run() cout {
 			return
 		}
 		if c.Mode == "seeds" {
+			// Pending: a write is begun BEFORE the streams open and held between storing its value and publishing its
+			// change (and whatever the model does after that: wastepb appends the record to its history only then):
+			// both streams are seeded from a model that is in the middle of a write
+			if h := inst.hold(); c.Pending && h != nil {
+				park := newParker("coll.update.beforeSend", "value.set.beforeSend")
+				defer park.close()
+				pend := park.start("pending write", func() error { h(g); return nil })
+				out.Held = pend.held
+				defer func() {
+					if out.Panic == "" {
+						pend.finish("pending write")
+					}
+				}()
+			}
 			n := inst.Seeds()
 			before := cloneAll(inst.Read(nil))
 			out.Raw = collectSeeds(inst, nil, n, &out)
@@ -787,6 +812,9 @@ func runComposed(cases []ccase, tie *lib.Tie, mon *lib.Monitor, drv *lib.Driver)
 		if c.Mode == "pull" && c.Pending {
 			tie.Count(fmt.Sprintf("pull:first-write-pending held=%v@%s", out.Held, c.Reader))
 		}
+		if c.Mode == "seeds" && c.Pending {
+			tie.Count(fmt.Sprintf("seeds:write-pending held=%v@%s", out.Held, c.Reader))
+		}
 		nonEmptyRaw := false
 		for _, m := range out.Raw {
 			nonEmptyRaw = nonEmptyRaw || (m != nil && nonEmpty(m))
@@ -852,6 +880,9 @@ func composedCases(g *mt.Gen, perReader int, pullCases int) []ccase {
 			for i, m := range ms {
 				if i < 2 || i%3 == int(g.R.Intn(3)) || len(m.Paths) > 1 {
 					out = append(out, ccase{Reader: r.Name, Mode: "seeds", SetupSeed: seed(), Mask: m})
+				}
+				if i < 2 || i%3 == int(g.R.Intn(3)) || len(m.Paths) > 1 {
+					out = append(out, ccase{Reader: r.Name, Mode: "seeds", SetupSeed: seed(), Mask: m, Pending: true})
 				}
 			}
 		}
